@@ -6,10 +6,15 @@ import (
 	"bufio"
 	"bytes"
 	"context"
+	"crypto/sha256"
 	"encoding/json"
 	"fmt"
 	"os"
 	"os/exec"
+	"reflect"
+	"runtime"
+	"runtime/debug"
+	"sort"
 	"strconv"
 	"strings"
 	"sync"
@@ -30,14 +35,19 @@ type pcfgFlags struct {
 	WireGuard        bool `json:"wire_guard"`
 	NoPoison         bool `json:"no_poison"`
 	LocalFromPresent bool `json:"local_from_present"`
+	KeyGuard         bool `json:"key_guard"`
 	// not a model flag: can the Processor be driven at all (events channel and logger wired)?
 	ProcWired bool `json:"processor_wired"`
+	// the processor scenarios run on a child built with the wiring overlay (the two never-set fields)
+	Overlay bool `json:"wiring_overlay"`
 }
 
-func (c pcfgFlags) String() string { return b01(c.WireGuard) + b01(c.NoPoison) + b01(c.LocalFromPresent) }
+func (c pcfgFlags) String() string {
+	return b01(c.WireGuard) + b01(c.NoPoison) + b01(c.LocalFromPresent) + b01(c.KeyGuard)
+}
 
 func (c pcfgFlags) describe() string {
-	return fmt.Sprintf("wireGuard=%v processorWired=%v noPoison=%v localFromPresent=%v", c.WireGuard, c.ProcWired, c.NoPoison, c.LocalFromPresent)
+	return fmt.Sprintf("wireGuard=%v processorWired=%v (overlay=%v) noPoison=%v localFromPresent=%v keyGuard=%v", c.WireGuard, c.ProcWired, c.Overlay, c.NoPoison, c.LocalFromPresent, c.KeyGuard)
 }
 
 type procStepT struct {
@@ -54,6 +64,12 @@ type procScenario struct {
 	Nonce     string      `json:"nonce"`
 	Steps     []procStepT `json:"steps"`
 	TimeoutMs int         `json:"timeout_ms"`
+	// Keyless: the committee has one more member whose peer id does not embed a public key (what
+	// an RSA or ECDSA key gives); local / publisher index the other (keyed) members
+	Keyless bool `json:"keyless,omitempty"`
+	// Once: every unit is handed over exactly once, as the engine does (no retry when the
+	// processor answers "processor channel full")
+	Once bool `json:"once,omitempty"`
 }
 
 type procEvent struct {
@@ -66,6 +82,18 @@ type procLine struct {
 	Res    string      `json:"res,omitempty"`  // "nil" | "err:route" | "err:other:<text>" | "stuck"
 	Events []procEvent `json:"events"`         // events observed since the previous line
 	Note   string      `json:"note,omitempty"` // "run-panic: …"
+	// evidence collected by the child (never inferred from the scenario)
+	Ev *procEvidence `json:"evidence,omitempty"`
+}
+
+// procEvidence: facts the child observed about HOW it failed.
+type procEvidence struct {
+	LoggerNil            bool   `json:"logger_nil"`             // Processor.logger is nil (reflection)
+	RunPanicInRun        bool   `json:"run_panic_in_run"`       // the recovered panic's stack has (*Processor).Run as the panicking frame's caller chain
+	RunPanicNilDeref     bool   `json:"run_panic_nil_deref"`    // … and it is a nil dereference
+	NilChanSendBroadcast bool   `json:"nil_chan_send_broadcast"` // a goroutine is blocked in broadcastUnit on "chan send (nil chan)"
+	BlockedSendToRun     bool   `json:"blocked_send_to_run"`    // a subprocessor is blocked sending to the (dead) Run loop
+	Dump                 string `json:"dump,omitempty"`
 }
 
 // world of a scenario: deterministic from (n, local, publisher, msg, nonce)
@@ -81,11 +109,20 @@ type procWorld struct {
 	units    []propeller.Unit
 	k, c     int
 	localIdx int
+	keyless  peer.ID
 }
 
 func newProcWorld(sc *procScenario) (*procWorld, error) {
 	w := &procWorld{ms: makeCommittee(sc.N, uint64(200+sc.N)), outsider: makeMember(999961)}
-	w.local, w.pub = w.ms[sc.Local], w.ms[sc.Pub]
+	if sc.Keyless {
+		keyed := makeCommittee(sc.N-1, uint64(200+sc.N))
+		w.keyless = keylessID(uint64(sc.N))
+		w.local, w.pub = keyed[sc.Local], keyed[sc.Pub]
+		w.ms = append(keyed, member{id: w.keyless})
+		sort.Slice(w.ms, func(i, j int) bool { return w.ms[i].id < w.ms[j].id })
+	} else {
+		w.local, w.pub = w.ms[sc.Local], w.ms[sc.Pub]
+	}
 	copy(w.cid[:], "verif-c19-processor-committee-id")
 	w.nonce = nonceOf(sc.Nonce)
 	w.msg, _ = unhx(sc.Msg)
@@ -135,16 +172,18 @@ func (w *procWorld) stepUnit(st procStepT) (*propeller.Unit, peer.ID) {
 		u.MessageRoot[0] ^= 1
 	case "publisher-other":
 		for _, m := range w.ms {
-			if m.id != w.pub.id && m.id != w.local.id {
+			if m.id != w.pub.id && m.id != w.local.id && m.id != w.keyless {
 				u.Publisher = m.id
 				break
 			}
 		}
+	case "publisher-keyless":
+		u.Publisher = w.keyless
 	}
 	switch st.Sender {
 	case "other":
 		for _, m := range w.ms {
-			if m.id != sender && m.id != w.local.id && m.id != w.pub.id {
+			if m.id != sender && m.id != w.local.id && m.id != w.pub.id && m.id != w.keyless {
 				sender = m.id
 				break
 			}
@@ -157,6 +196,13 @@ func (w *procWorld) stepUnit(st procStepT) (*propeller.Unit, peer.ID) {
 		sender = w.local.id
 	}
 	return u, sender
+}
+
+// keylessID: a syntactically valid peer id that does not embed a public key — the SHA-256
+// multihash form libp2p uses for keys longer than 42 bytes (RSA, ECDSA).
+func keylessID(salt uint64) peer.ID {
+	h := sha256.Sum256([]byte(fmt.Sprintf("verif-c19-keyless-peer-%d", salt)))
+	return peer.ID(append([]byte{0x12, 0x20}, h[:]...))
 }
 
 func renderUnit(u *propeller.Unit) string {
@@ -204,10 +250,15 @@ func procChild(path string) {
 	p, events := propeller.NewProcessor(w.local.id, &cfg)
 	ctx, cancel := context.WithCancel(context.Background())
 	defer cancel()
+	ev := &procEvidence{LoggerNil: fieldIsNil(p, "logger")}
 	runNote := make(chan string, 1)
 	go func() {
 		defer func() {
 			if r := recover(); r != nil {
+				st := string(debug.Stack())
+				// the frame that panicked is the first propeller frame below runtime.gopanic
+				ev.RunPanicInRun = firstPropellerFrame(st) == "(*Processor).Run"
+				ev.RunPanicNilDeref = strings.Contains(fmt.Sprint(r), "nil pointer dereference")
 				runNote <- fmt.Sprintf("run-panic: %v", r)
 			}
 		}()
@@ -221,8 +272,8 @@ func procChild(path string) {
 	drain := func() {
 		for {
 			select {
-			case ev := <-events:
-				pending = append(pending, describeEvent(ev))
+			case e := <-events:
+				pending = append(pending, describeEvent(e))
 			default:
 				return
 			}
@@ -236,8 +287,9 @@ func procChild(path string) {
 			return ""
 		}
 	}
-	// hand delivers one unit: retries while the subprocessor is busy ("processor channel full"),
-	// draining the events channel meanwhile (the only consumer, so nothing is lost or reordered).
+	// hand delivers one unit. Normal mode: retries while the subprocessor is busy ("processor
+	// channel full"), draining the events channel meanwhile (the only consumer, so nothing is lost or
+	// reordered). Once mode: a single call, as the engine makes it.
 	hand := func(u *propeller.Unit, sender peer.ID) string {
 		deadline := time.Now().Add(timeout)
 		for {
@@ -249,6 +301,9 @@ func procChild(path string) {
 			msg := err.Error()
 			switch {
 			case strings.Contains(msg, "processor channel full"):
+				if sc.Once {
+					return "full"
+				}
 				if time.Now().After(deadline) {
 					return "stuck"
 				}
@@ -260,10 +315,28 @@ func procChild(path string) {
 			}
 		}
 	}
+	stuckEvidence := func() *procEvidence {
+		buf := make([]byte, 1<<20)
+		dump := string(buf[:runtime.Stack(buf, true)])
+		for _, g := range strings.Split(dump, "\n\n") {
+			if strings.Contains(g, "chan send (nil chan)") && strings.Contains(g, ").broadcastUnit(") {
+				ev.NilChanSendBroadcast = true
+			}
+			if strings.Contains(g, "[chan send") && !strings.Contains(g, "nil chan") &&
+				(strings.Contains(g, ").beforeMessageBuiltStage(") || strings.Contains(g, ").beforeMessageReceivedStage(") ||
+					strings.Contains(g, "createSubprocessor.func1(")) && !strings.Contains(g, ").broadcastUnit(") {
+				ev.BlockedSendToRun = true
+			}
+		}
+		return ev
+	}
 	prev := -2
 	for i, st := range sc.Steps {
 		u, sender := w.stepUnit(st)
 		res := hand(u, sender)
+		if sc.Once {
+			time.Sleep(3 * time.Millisecond) // let the subprocessor work; nothing is retried
+		}
 		// events drained while handing step i over belong to the steps before it
 		if prev != -2 {
 			emit(procLine{Step: prev, Res: "events-of-previous", Events: pending, Note: note()})
@@ -272,9 +345,16 @@ func procChild(path string) {
 		emit(procLine{Step: i, Res: res})
 		prev = i
 		if res == "stuck" {
-			emit(procLine{Step: -1, Res: "stuck", Note: note()})
+			emit(procLine{Step: -1, Res: "stuck", Note: note(), Ev: stuckEvidence()})
 			os.Exit(0)
 		}
+	}
+	if sc.Once {
+		time.Sleep(20 * time.Millisecond)
+		drain()
+		emit(procLine{Step: prev, Res: "events-of-previous", Events: pending, Note: note()})
+		emit(procLine{Step: -1, Res: "once-done", Note: note(), Ev: ev})
+		os.Exit(0)
 	}
 	// barrier: an out-of-range unit of the same message; once it is taken (or ignored because the
 	// key is finalized) everything before it has been processed
@@ -284,8 +364,51 @@ func procChild(path string) {
 	time.Sleep(2 * time.Millisecond)
 	drain()
 	emit(procLine{Step: prev, Res: "events-of-previous", Events: pending, Note: note()})
-	emit(procLine{Step: -1, Res: res, Note: note()})
+	if res == "stuck" {
+		emit(procLine{Step: -1, Res: res, Note: note(), Ev: stuckEvidence()})
+	} else {
+		emit(procLine{Step: -1, Res: res, Note: note(), Ev: ev})
+	}
 	os.Exit(0)
+}
+
+// fieldIsNil: is the named (unexported) field of *p nil? Read-only reflection.
+func fieldIsNil(p any, name string) bool {
+	v := reflect.ValueOf(p)
+	if v.Kind() != reflect.Pointer || v.IsNil() {
+		return false
+	}
+	f := v.Elem().FieldByName(name)
+	if !f.IsValid() {
+		return false
+	}
+	switch f.Kind() {
+	case reflect.Interface, reflect.Pointer, reflect.Chan, reflect.Map, reflect.Slice, reflect.Func:
+		return f.IsNil()
+	}
+	return false
+}
+
+// firstPropellerFrame: the function of the first consensus/propeller frame of a stack trace (the
+// frame in which the panic was raised), without the package path.
+func firstPropellerFrame(stack string) string {
+	for _, l := range strings.Split(stack, "\n") {
+		const pfx = "github.com/NethermindEth/juno/consensus/propeller."
+		if strings.HasPrefix(l, pfx) {
+			fn := strings.TrimPrefix(l, pfx)
+			if i := strings.IndexByte(fn, '('); i > 0 && strings.HasPrefix(fn, "(") {
+				// method: "(*Processor).Run(…)"
+				if j := strings.Index(fn[1:], "("); j > 0 {
+					return fn[:j+1]
+				}
+			}
+			if i := strings.IndexByte(fn, '('); i > 0 {
+				return fn[:i]
+			}
+			return fn
+		}
+	}
+	return ""
 }
 
 // describeEvent renders an Event of the processor. The event types are unexported; their content
@@ -418,7 +541,7 @@ func procCase0(h *hctx, sc *procScenario, pre *procRun) {
 	rp := map[string]any{"kind": "processor", "scenario": sc}
 	w, err := newProcWorld(sc)
 	if err != nil {
-		h.res.Note("procCase: %v", err)
+		h.res.Fatalf("procCase: %v", err)
 		return
 	}
 	total := w.k + w.c
@@ -798,7 +921,7 @@ func honestSteps(idx []int) []procStepT {
 
 func secProcessor(h *hctx, r *lib.RNG) {
 	if !(h.cfg.ShardingLeafProto == h.cfg.ValidatorLeafProto && h.cfg.NonceSet) {
-		h.res.Note("processor section skipped: CreatePropellerUnits and UnitValidator disagree in this tree, no unit can be accepted")
+		h.res.Fatalf("processor section skipped: CreatePropellerUnits and UnitValidator disagree in this tree, no unit can be accepted")
 		return
 	}
 	mk := func(n, local, pub int, msgLen int, steps []procStepT) *procScenario {
